@@ -110,6 +110,17 @@ def step (j : Json) : R Json := do
       pure (obj [("tangent", ofV th), ("tied", Json.bool tied), ("R", ofM R), ("R_flipped", ofM Rf),
                  ("mapped", ofList ofV (mapPoints R pts)), ("mapped_flipped", ofList ofV (mapPoints Rf pts)),
                  ("normals", ofList ofV [normalize nn.1, normalize nn.2])])
+  | "fpc" =>
+    -- force_point_collinearity(pts): l_j = |p_j - p_0| / |p_end - p_0| (square roots: driver glue)
+    let pts ← fPts j "pts"
+    match pts, fpcEnd pts with
+    | p0 :: _, some pe =>
+      let D := sqrtApprox (V3.normSq (V3.sub pe p0))
+      let lams := pts.map (fun p => sqrtApprox (V3.normSq (V3.sub p p0)) / D)
+      let f := fun p => V3.normSq (V3.sub p p0)
+      pure (obj [("out", ofList ofV (forcePointCollinearity p0 pe lams)),
+                 ("tied", Json.bool (nearTie f (pts.eraseDups) (f pe)))])
+    | _, _ => pure (err "AssertionError")
   | "tn" =>
     -- TangentialNormalProjection(normals): project_tangential_normal / _tangential / _normal
     let dim ← fNat j "dim"
